@@ -511,6 +511,9 @@ def stage_big_sends(ctx, stats):
                 rets = []
                 err = None
                 try:
+                    # a read that ends in TIMEOUT first: whatever it did to the descriptor must be undone before the sends
+                    if p.expect_exact([b'never', pexpect.TIMEOUT], timeout=0) != 1:
+                        err = 'expect_exact(timeout=0) on a silent peer did not give the TIMEOUT index'
                     rets.append(p.send(b'head:'))
                     rets.append(p.send(payload))
                     rets.append(p.sendline(b'tail'))
@@ -537,6 +540,85 @@ def stage_big_sends(ctx, stats):
                         pass
 
 
+def stage_log_edges(ctx, stats):
+    """C11 at the edges of the transports:
+    (a) small reads of output that a child left behind when it exited (popen, pty, fd): everything delivered is in logfile_read;
+    (b) a send that fails half-way (timeout-mode socket, peer not reading): whatever reached the peer is in logfile_send."""
+    import socket, threading
+    from pexpect import popen_spawn
+    text = ''.join('%03d.' % i for i in range(78))[:310].encode()
+    for tr in ('popen', 'pty', 'fd'):
+        for enc in (None, 'utf-8'):
+            for size in (64, 100, 1000):
+                rec = S.RecLog()
+                if tr == 'popen':
+                    p = popen_spawn.PopenSpawn([common.PY, '-c', 'import sys; sys.stdout.write(%r); sys.stdout.flush()' % text.decode()], encoding=enc, timeout=3)
+                    time.sleep(0.25)              # the child has exited and the reader thread has queued its output and the EOF marker
+                elif tr == 'pty':
+                    p = pexpect.spawn(common.PY, ['-c', 'import sys,tty; tty.setraw(1); sys.stdout.write(%r); sys.stdout.flush()' % text.decode()], encoding=enc, timeout=3)
+                    time.sleep(0.25)
+                else:
+                    r, w = os.pipe(); os.write(w, text); os.close(w)
+                    p = fdpexpect.fdspawn(r, encoding=enc, timeout=3)
+                p.logfile_read = rec
+                got = []
+                try:
+                    for _ in range(40):
+                        try:
+                            got.append(p.read_nonblocking(size, 1))
+                        except pexpect.EOF:
+                            break
+                        except pexpect.TIMEOUT:
+                            continue
+                finally:
+                    try:
+                        if tr == 'popen':
+                            p.proc.stdout.close(); p.proc.wait()
+                        elif tr == 'pty':
+                            p.close(force=True)
+                        else:
+                            p.close()
+                    except Exception:
+                        pass
+                empty = '' if enc else b''
+                delivered = empty.join(got)
+                logged = empty.join(e[1] for e in rec.ev if e[0] == 'w')
+                want = text.decode() if enc else text
+                stats['log_edges'] = stats.get('log_edges', 0) + 1
+                if delivered != want or logged != delivered:
+                    common.report(ctx, 'c11/%s/small-reads' % tr, '%s (%s mode), reads of %d: delivered %d characters, logfile_read has %d of them (child wrote %d)' % (
+                        tr, 'unicode' if enc else 'bytes', size, len(delivered), len(logged), len(want)), dict(stage='stage_log_edges', transport=tr, encoding=enc, size=size))
+    for enc in (None, 'utf-8'):
+        a, b = socket.socketpair()
+        a.settimeout(0.2)
+        rec = S.RecLog()
+        p = socket_pexpect.SocketSpawn(a, encoding=enc, timeout=1)
+        p.logfile_send = rec
+        payload = ('0123456789abcdef' * 65536)
+        err = None
+        try:
+            p.send('first;' if enc else b'first;')
+            p.send(payload if enc else payload.encode())
+        except Exception as e:      # noqa
+            err = type(e).__name__
+        b.setblocking(False)
+        got = b''
+        try:
+            while True:
+                d = b.recv(1 << 20)
+                if not d:
+                    break
+                got += d
+        except BlockingIOError:
+            pass
+        a.close(); b.close()
+        logged = ('' if enc else b'').join(e[1] for e in rec.ev if e[0] == 'w')
+        logged_b = logged.encode() if enc else logged
+        if not logged_b.startswith(got) or not got.startswith(b'first;'):
+            common.report(ctx, 'c11/socket/failed-send', 'socket (%s mode): a send failed with %s after %d bytes had reached the peer; logfile_send holds %d bytes and does not cover them' % (
+                'unicode' if enc else 'bytes', err, len(got), len(logged_b)), dict(stage='stage_log_edges', encoding=enc))
+
+
 def run(ctx):
     prop = ctx.prop
     common.prove(ctx, [prop])
@@ -560,6 +642,8 @@ def run(ctx):
     sigs = set()
     if prop == 'C08':
         stage_big_sends(ctx, stats)
+    if prop == 'C11':
+        stage_log_edges(ctx, stats)
     oracle = ORACLES[prop]
     for i, c in enumerate(cases):
         res = run_case(c)
